@@ -86,10 +86,12 @@ def check_case(case):
                 res.add(viol('crash_on_infeasible', f'x={rec["x"]} {rec["exc_msg"]}',
                              sig=f'crash_on_infeasible:{rec["exc"]}'))
             continue
-        if not rec['final']:
+        if ref and not rec['final']:
             res.add(viol('not_final', f'x={rec["x"]}'))
-        if not rec['feasible']:
+        if ref and not rec['feasible']:
             res.add(viol('not_feasible', f'x={rec["x"]}'))
+        if not ref:
+            continue   # hypothesis 'feasible design space graph' does not hold: only explicit failure is required
         for v in membership_violations(model, ref, rec, spec):
             res.add(v)
         if rec['x_corr'] != rec['x'] or not all(rec['active']):
